@@ -55,7 +55,8 @@ def _program(draw):
         # an asynchronous source may also fail with a cancellation (it awaited something that was cancelled)
         # or with a BaseException: "that same exception" reaches the consumer whatever its type
         fail_kind = draw(st.sampled_from(['exc', 'exc', 'cancel', 'base']))
-    return {'dir': direction, 'src': {'kind': kind, 'elems': elems, 'fail_at': fail_at, 'delay': delay, 'fail_kind': fail_kind},
+    pair = draw(st.integers(0, 3)) == 0 and kind in ('gen', 'iter', 'agen')
+    return {'pair': pair, 'dir': direction, 'src': {'kind': kind, 'elems': elems, 'fail_at': fail_at, 'delay': delay, 'fail_kind': fail_kind},
             'cdelay': draw(st.sampled_from([0, 0, 1 / 64, 0.25])),
             'loop': draw(st.sampled_from(['none', 'fresh'])) if direction == 'a2s' else 'none'}
 
@@ -110,6 +111,10 @@ def run_case(case):
         if not _same_seq(hist['got'], exp):
             viol.append(V('wrong-sequence', f"{desc}: consumed {hist['got']!r}, expected {exp!r}",
                           'wrong-sequence:' + ('short' if len(hist['got']) < len(exp) else 'other')))
+        if hist.get('elems2') is not None:
+            if not _same_seq(hist['got2'], hist['elems2']) or hist['exc2'] is not None:
+                viol.append(V('second-bridge', f"{desc}: a second bridge alive at the same time over {hist['elems2']!r} delivered "
+                              f"{hist['got2']!r} and ended with {hist['exc2']!r}", 'second-bridge'))
         if f is not None:
             if hist['exc'] is not hist['boom']:
                 viol.append(V('error-not-propagated', f"{desc}: consumer saw {hist['exc']!r} instead of the source's exception",
@@ -142,4 +147,8 @@ def run_case(case):
         cl.append('falsy-element')
     if src.get('delay'):
         cl.append('slow-producer')
+    if case.get('pair'):
+        cl.append('two-bridges')
+    if any(isinstance(e, BaseException) or isinstance(e, type) for e in elems):
+        cl.append('exception-object-element')
     return Result(viol, nt, cl, H.abbreviate(hist), {'steps': hist['steps'], 'decisions': hist['decisions']})
